@@ -108,6 +108,22 @@ def analyse(fns, is_source_call, label):
             bl = base_locals(m.group(2))
             if bl:
                 mutref[m.group(1)] = bl[0]
+        # references returned by calls that received a &mut argument alias that argument's referent
+        # (e.g. `_a = <Vec<u64> as IndexMut<usize>>::index_mut(move _r, _k)` with `_r = &mut (*_1).values`)
+        for _round in range(3):
+            for m in re.finditer(r"^\s*(_\d+) = (.+?)\((.*)\) -> \[return: bb\d+", f.body, re.M):
+                dst = m.group(1)
+                if not f.types.get(dst, "").startswith("&"):
+                    continue
+                for a in base_locals(m.group(3)):
+                    if a in mutref and dst not in mutref:
+                        mutref[dst] = mutref[a]
+            for m in re.finditer(r"^\s*(_\d+) = &(?:raw )?mut \(\*(_\d+)\)", f.body, re.M):
+                if m.group(2) in mutref and m.group(1) not in mutref:
+                    mutref[m.group(1)] = mutref[m.group(2)]
+            for m in re.finditer(r"^\s*(_\d+) = (?:move|copy) (_\d+);$", f.body, re.M):
+                if m.group(2) in mutref and m.group(1) not in mutref:
+                    mutref[m.group(1)] = mutref[m.group(2)]
         for line in f.body.splitlines():
             l = line.strip()
             if not l or l.startswith(("StorageLive", "StorageDead", "debug ", "let ", "scope ", "bb", "}", "//", "nop", "FakeRead", "PlaceMention", "Retag", "Coverage")):
